@@ -3,7 +3,8 @@
    `live1_cert` is a decidable certificate, relative to the table, that no other entry can take the match away:
      own distance is exactly 1 for every conforming packet outside the known classes (live1_tcp_b), and for every
      other entry t of another label
-       in FRONT of s : t never is at distance exactly 1   (distance 0 means the packet conforms to t: admissible)
+       in FRONT of s : t never is at distance exactly 1   (distance 0 means the packet conforms to t: admissible),
+                       or t writes scale `0` itself (then distance 1 means the packet conforms to t as well)
        BEHIND s      : t never is at distance 0
    decided field by field on (s, t): t rejects every such observation (layout / quirk list / version / payload class), or some field other than the scale is necessarily charged (must_other), or the scale term settles it
    (the observation has no scale: t's `*` costs 0, t's number costs 1).
@@ -36,8 +37,10 @@ Definition obs_win_exact (s : tcp_sig) : option window_size :=
 
 Definition rejects (s t : tcp_sig) : bool :=
   negb (list_eqb tcp_option_eqb (t_olayout s) (t_olayout t))
-  || negb (list_eqb quirk_eqb (t_quirks s) (t_quirks t))
-  || negb (existsb (fun v => version_inst_b (t_version t) v) (live_versions s))
+  (* no IP version of s's packets that t admits compares equal quirk lists (both masked by that version) *)
+  || negb (existsb (fun v => version_inst_b (t_version t) v
+                             && list_eqb quirk_eqb (sig_quirks_for v (t_quirks s)) (sig_quirks_for v (t_quirks t)))
+                   (live_versions s))
   || (match t_pclass s, t_pclass t with PZero, PNonZero | PNonZero, PZero => true | _, _ => false end).
 
 Definition must_ttl (s t : tcp_sig) : bool :=
@@ -73,6 +76,10 @@ Definition must_other (s t : tcp_sig) : bool :=
   must_ttl s t || must_olen s t || must_mss s t || must_win s t || must_joint s t.
 
 Definition sep_before (s t : tcp_sig) : bool := rejects s t || must_other s t || is_none (t_wscale t).
+(* an entry in front that itself writes scale `0`: when it is at distance exactly 1, the point is the scale and the packet
+   conforms to it (one_conforms) — harmless *)
+Definition scale_is_zero (t : tcp_sig) : bool := match t_wscale t with Some 0 => true | _ => false end.
+Definition cert_before (s t : tcp_sig) : bool := sep_before s t || scale_is_zero t.
 Definition sep_after (s t : tcp_sig) : bool := rejects s t || must_other s t || negb (is_none (t_wscale t)).
 
 (* the entries behind the first one satisfying `stop` *)
@@ -84,5 +91,5 @@ Definition same_label {S} (tbl : list (label * list S)) (li lj : N) : bool :=
 
 Definition live1_cert (tbl : list (label * list tcp_sig)) (li si : N) (s : tcp_sig) : bool :=
   live1_tcp_b s
-  && forallb (fun p => same_label tbl li (fst (fst p)) || sep_before s (snd p)) (prefix_before (pos_is li si) (positions tbl))
+  && forallb (fun p => same_label tbl li (fst (fst p)) || cert_before s (snd p)) (prefix_before (pos_is li si) (positions tbl))
   && forallb (fun p => same_label tbl li (fst (fst p)) || sep_after s (snd p)) (suffix_after (pos_is li si) (positions tbl)).
